@@ -408,6 +408,13 @@ func (r *Runner) Exec(st Step) error {
 		if cl := r.client(st.C); cl != nil {
 			cl.Abandon()
 		}
+	case "clienttimeout":
+		// how long the client waits for an answer before it retries (default 4 s)
+		if cl := r.client(st.C); cl != nil {
+			cl.mu.Lock()
+			cl.timeout = time.Duration(max(st.Ms, 100)) * time.Millisecond
+			cl.mu.Unlock()
+		}
 	case "await":
 		if cl := r.client(st.C); cl != nil {
 			if !cl.WaitIdle(time.Duration(max(st.Ms, 30000)) * time.Millisecond) {
